@@ -65,6 +65,17 @@
       [//b[1]/..] against [( / descendant-or-self::node() / child::b [ position() = 1]/parent::node() )]
       on a dumped document.
 
+    - everything except [//], at full strength: [spelling_irrelevant_light]: two spellings with the
+      same LIGHT normal form ([XPathSpellingLight.lnorm]: parentheses dropped, [@] / the omitted axis /
+      [.] / [..] expanded, a numeric predicate turned into [position() = n]; the separators [/] and
+      [//] stay where they are; a sub-relation of [≈]: [lnorm_equiv]) have EQUAL [query_model]
+      results -- same value, same error, same panic -- on EVERY document table and for every axis
+      (no [DocInv], no [xnons]), provided the bindings have no default namespace; and
+      [white_space_irrelevant]: white space and the quote of a literal never matter (no hypothesis
+      at all).  Underneath: [xeval_lnorm], the two evaluations are the same state-and-result
+      computation (same context afterwards, too).  So the hypotheses [DocInv] and [xnons] of
+      [spelling_irrelevant_partial] serve the equivalence [//] = [/descendant-or-self::node()/] only.
+
     WHAT THE EVALUATION HALF DOES NOT SAY (the full statement above is FALSE for the model, hence
     for the code, in these respects; [spelling_irrelevant_partial] is the strongest statement
     that holds):
@@ -84,7 +95,7 @@ From Coq Require Import List NArith Arith Bool.
 From XmlRs Require Import Base.CPred Spec.XPathSyntax Model.Peg Model.XPathAst
   Model.ParseActionsXPath Model.XPathAstAbs Proofs.XPathParseExpr Proofs.XPathParseMain Proofs.XPathSyntaxLemmas Proofs.XPathParsePrecedence Proofs.XPathParseTotal.
 From XmlRs Require Model.XDoc Model.XPathEval Proofs.XPathCanon Proofs.XPathAstShaped Proofs.XPathParseShaped Proofs.XPathAbsEval
-  Proofs.XPathAbsInv Proofs.XPathSpellingMain Proofs.XPathSpellingExamples.
+  Proofs.XPathAbsInv Proofs.XPathSpellingLight Proofs.XPathSpellingMain Proofs.XPathSpellingExamples.
 Import ListNotations.
 
 (** [Theorem]s have their assumptions re-checked on every run of checks/C08.py; [Corollary]s are
@@ -239,6 +250,25 @@ Corollary spelling_irrelevant_fails : forall doc bind a sp1 sp2,
    (forall v, XPathSpellingMain.query_model doc bind (spell a sp2) <> XPathSpellingMain.QValue v)).
 Proof. exact XPathSpellingMain.spelling_irrelevant_fails_proof. Qed.
 
+(** white space between tokens never matters: equal results, no hypothesis on document, bindings or axes *)
+Theorem white_space_irrelevant : forall doc bind (a : xexpr) (w1 w2 : wtree),
+  wfb a = true -> no_fname_case a = true -> ws_ok w1 = true -> ws_ok w2 = true ->
+  XPathSpellingMain.query_model doc bind (spell_surface a w1) = XPathSpellingMain.query_model doc bind (spell_surface a w2).
+Proof. exact XPathSpellingMain.white_space_irrelevant_proof. Qed.
+
+(** parentheses, [@], the omitted axis, [.], [..], [n] against [position() = n], white space: EQUAL results
+    (values, errors, panics) on every document *)
+Theorem spelling_irrelevant_light : forall doc bind a sp1 sp2,
+  ok_spelling a sp1 -> ok_spelling a sp2 ->
+  no_fname_case (surface sp1) = true -> no_fname_case (surface sp2) = true ->
+  XPathSpellingLight.lnorm (surface sp1) = XPathSpellingLight.lnorm (surface sp2) ->
+  XPathEval.ns_lookup bind None = None ->
+  XPathSpellingMain.query_model doc bind (spell a sp1) = XPathSpellingMain.query_model doc bind (spell a sp2).
+Proof. exact XPathSpellingMain.spelling_irrelevant_light_proof. Qed.
+
+Corollary lnorm_equiv : forall a b, XPathSpellingLight.lnorm a = XPathSpellingLight.lnorm b -> a ≈ b.
+Proof. exact XPathSpellingLight.lnorm_equiv. Qed.
+
 (** the full statement does not hold: two spellings may fail with different errors ([//a[@k or foo()]/b[bar()]]
     against [/descendant-or-self::node()/a[@k or foo()]/b[bar()]] on [<r><a k="1"><b/><a/></a></r>]:
     NotFoundFunction(bar) against NotFoundFunction(foo), model and implementation) *)
@@ -262,6 +292,8 @@ Proof. exact XPathSpellingExamples.default_namespace_refuted_proof. Qed.
 (** the hypotheses are satisfiable by a non-trivial value: a dumped document, two different strings *)
 Check XPathSpellingExamples.ex_hypotheses.
 Check XPathSpellingExamples.ex_spell2_differs : spell XPathSpellingExamples.ex_short XPathSpellingExamples.ex_sp2 <> spell XPathSpellingExamples.ex_short XPathSpellingExamples.ex_sp1.
+Check XPathSpellingExamples.ex_light_hypotheses.
+Check XPathSpellingExamples.ex_light_same.
 Check XPathSpellingExamples.ex_value2 :
   XPathSpellingMain.query_model XPathExamples.ex_doc [] (spell XPathSpellingExamples.ex_short XPathSpellingExamples.ex_sp2)
   = XPathSpellingMain.QValue (XPathEval.XNodes [1%N]).
@@ -288,5 +320,8 @@ Print Assumptions parse_shaped.
 Print Assumptions eval_abs.
 Print Assumptions spelling_irrelevant_partial.
 Print Assumptions spelling_irrelevant_fails.
+Print Assumptions white_space_irrelevant.
+Print Assumptions spelling_irrelevant_light.
+Print Assumptions lnorm_equiv.
 Print Assumptions error_order_refuted.
 Print Assumptions default_namespace_refuted.
